@@ -60,6 +60,19 @@ IO_ASSUME = [
     "str.format / os.path.exists / Path.exists are oracles (opaque result / arbitrary Boolean)",
 ]
 
+WK_ASSUME = [
+    "THREAD-MODULAR REDUCTION (DESIGN section 6, argued not machine-checked): threads share only queue.Queue inboxes; each "
+    "thread is verified sequentially for EVERY result sequence of its queue waits (message / stop marker / Empty), which "
+    "covers all interleavings and timeout firings under the assumptions below",
+    "queue.Queue is a linearizable FIFO; get(timeout) raises Empty only if the queue was empty at some instant of the wait; "
+    "Thread.join is a happens-before edge; CPython executes each thread sequentially consistently",
+    "liveness (every thread terminates) holds under fairness and a finite stream / a requested stop: every loop exits on the "
+    "stop marker, which its producer is proved to send in program order after the data; the wait-for graph "
+    "main -> tokenizer -> stream saver, main -> observers is acyclic (structure unit); external calls return",
+    "AudioDataSaverWorker.__del__ (re-runs _post_process at garbage collection) is not modelled",
+    "datetime / logging calls are opaque no-ops; observers are an abstract list of K workers (K symbolic)",
+]
+
 REGISTRY = {
     "C01": {"module": "props.tokenizer", "units": ["lemmas", "process", "post_process", "iter_tokens"],
             "witness": "tok", "assumptions": TOK_ASSUME},
@@ -135,6 +148,25 @@ REGISTRY = {
                 "float products in position_s / position_ms setters read as real arithmetic, int() exact truncation",
                 "StdinAudioSource: sizes None / negative are outside the statement (read(None) raises TypeError in the real code)",
                 "exact polynomial rewriting (pyvc/nl.py) and instantiated multiplication-monotonicity lemmas"]},
+    "C12": {"parts": [{"module": "props.workers", "units": ["worker_run", "worker_misc", "notify", "tokenizer_run", "tokenizer_init_read",
+                                                              "stream_saver", "print_worker", "structure"]},
+                      {"module": "props.split", "units": ["split"]}],
+            "witness": "workers", "assumptions": WK_ASSUME},
+    "C13": {"parts": [{"module": "props.workers", "units": ["worker_run", "worker_misc", "stream_saver", "joiner", "region_saver", "saver_init",
+                                                              "split_and_join", "tokenizer_init_read", "structure"]},
+                      {"module": "props.regions", "units": ["make_silence", "join", "check_iter_others"]},
+                      {"module": "props.iofuncs", "units": ["region_save", "to_file", "guess_format"]}],
+            "witness": "workers", "assumptions": WK_ASSUME + [
+                "the wave writer is a library model: the file holds, in order, what writeframes was given; a closed file has a "
+                "complete header with the parameters set at creation (assumed)"]},
+    "C14": {"parts": [{"module": "props.workers", "units": ["worker_run", "worker_misc", "notify", "tokenizer_run", "tokenizer_init_read",
+                                                              "stream_saver", "joiner", "saver_init", "structure"]},
+                      {"module": "props.tokenizer", "units": ["lemmas", "post_process", "iter_tokens"]}],
+            "witness": "workers", "assumptions": WK_ASSUME + [
+                "'every point at which the stop can arrive' = every outcome of the stop poll that precedes each read (stop marker "
+                "present / absent): once it is seen read() returns end-of-stream without touching the reader, and the tokenizer's "
+                "flush contract (C04 at N = blocks read so far) gives the detections of the prefix",
+                "cmdline.main's interrupt handler is covered by C15's path contract (KeyboardInterrupt => stop_all => status 0)"]},
     "C16": {"module": "props.regions", "units": ["post_init", "getitem", "len", "seconds", "millis"],
             "witness": "region", "assumptions": REG_ASSUME},
     "C17": {"module": "props.regions", "units": ["post_init", "getitem", "add", "mul", "eq", "make_silence", "truediv",
